@@ -21,11 +21,11 @@ LEVEL = "fault_enumeration"
 QUICK_RUNS = 2500
 QUICK_BUDGET_S = 50.0
 THOROUGH_RUNS = 10 ** 9
-BATCH = 100
+BATCH = 20
 RULE = ("one run = one seeded (schema, value) encoded by the independent foreign writer under a drawn "
         "block layout (any partition of each array/map, each block in positive- or negative-count+"
         "byte-size form); evaluations = decode attempts: fault-free read and skip, cut(k) for EVERY k "
-        "(encodings > 2 KiB quick / 16 KiB thorough: first 1 KiB, last 256 B and a stride) in both modes, "
+        "(encodings > 2 KiB quick / 16 KiB thorough: first 512 B, last 256 B and a stride) in both modes, "
         "bad_index at EVERY union/enum index site (more than 48 quick / 512 thorough sites: first, last and a seeded sample) x 8 out-of-range values (union: read "
         "and skip mode; enum: read mode). non-trivial = the encoding is non-empty; distinct = faults "
         "counted over distinct (schema, encoding) digests")
@@ -42,7 +42,8 @@ COMPONENTS = {
     "oracle": ["refavro.encode (foreign writer with index-site map)", "refavro.decode", "refavro.value_eq"],
 }
 PROBES = ["negative_count_block", "ge3_blocks", "empty_collection", "index_depth_ge2",
-          "union_site", "enum_site", "skip_mode_index", "bad_index_negative", "bad_index_high"]
+          "union_site", "enum_site", "skip_mode_index", "bad_index_negative", "bad_index_high",
+          "skip_last_seekable", "skip_last_sequential", "large_payload_leaf"]
 SENTINEL = 0x5EED5EED
 
 
@@ -56,26 +57,51 @@ def _bad_values(n):
 
 def _cuts(ch, L, tier):
     """Every proper prefix; for encodings dominated by long payloads (> 2 KiB quick,
-    > 16 KiB thorough) the first 1 KiB, the last 256 bytes and a seeded stride."""
+    > 16 KiB thorough) the first 512 B, the last 256 bytes and a seeded stride."""
     lim = 2048 if tier == "quick" else 16384
     if L <= lim:
         return range(L)
-    ks = set(range(1024)) | set(range(L - 256, L))
-    stride = max(1, L // 400)
+    ks = set(range(512)) | set(range(L - 256, L))
+    stride = max(1, L // 250)
     ks.update(range(ch.draw(stride), L, stride))
     return sorted(ks)
 
 
 def run_one(ch, ctx):
     F = common.fa()
-    schema, gstats = gen.schema(ch, max_depth=3, max_fields=4)
-    node = refavro.resolve(schema)
-    dg = gen.DataGen(ch, hints=False, tuples=False, max_len=4, omit_defaults=False)
-    d = dg.datum(node)
+    if ch.chance(7):
+        # swarm: payload-size profile -- one string / bytes / fixed leaf larger than any I/O buffer
+        # (8 KiB), placed last so that nothing after it would notice a sloppy skip
+        n = ch.pick([8193, 9000, 20000])
+        form = ch.draw(7)
+        big_s = ch.pick(["a", "é"]) * n
+        big_b = bytes([ch.draw(256)]) * n
+        schema, d = [
+            ("string", big_s),
+            ("bytes", big_b),
+            ({"type": "fixed", "name": "Big", "size": n}, big_b),
+            ({"type": "record", "name": "RB", "fields": [{"name": "a", "type": "int"}, {"name": "s", "type": "string"}]}, {"a": 7, "s": big_s}),
+            (["null", "bytes"], big_b),
+            ({"type": "array", "items": "string"}, ["x", big_s]),
+            ({"type": "map", "values": "bytes"}, {"k": big_b}),
+        ][form]
+        node = refavro.resolve(schema)
+        dg = gen.DataGen(ch, hints=False, tuples=False)
+        ctx.probe("large_payload_leaf")
+    else:
+        schema, gstats = gen.schema(ch, max_depth=3, max_fields=4)
+        node = refavro.resolve(schema)
+        dg = gen.DataGen(ch, hints=False, tuples=False, max_len=4, omit_defaults=False, long_strings=(63, 64, 65, 200))
+        d = dg.datum(node)
     wrap_schema = {"type": "record", "name": "Wrap", "fields": [{"name": "x", "type": schema},
                                                                    {"name": "tail", "type": "long"}]}
     reader_schema = {"type": "record", "name": "Wrap", "fields": [{"name": "tail", "type": "long"}]}
     wnode = refavro.resolve(wrap_schema)
+    # second skip form: the skipped value is the LAST thing in the encoding (nothing after it
+    # would notice a skip that ran past the end), read through a seekable stream
+    last_schema = {"type": "record", "name": "WrapL", "fields": [{"name": "head", "type": "long"}, {"name": "x", "type": schema}]}
+    last_reader = {"type": "record", "name": "WrapL", "fields": [{"name": "head", "type": "long"}]}
+    lnode = refavro.resolve(last_schema)
     # the same layout decisions for both encodings are not required; draw independently
     lay = refavro.Layout(ch)
     enc, sites = refavro.encode(node, d, lay)
@@ -143,6 +169,32 @@ def run_one(ch, ctx):
             ctx.fault("cut_skip")
             continue
         raise Violation("cut", "prefix-decoded", detail={"mode": "skip", "cut": k, "returned": jsonable(v), "wrapped_encoding": wenc.hex()[:600]}, scenario=desc)
+
+    # ---- skipped value last, seekable input: fault-free + every cut ------------------------------
+    lenc, _ls = refavro.encode(lnode, {"head": SENTINEL, "x": d}, refavro.Layout(ch))
+    PLS = F.parse_schema(last_schema)
+    PLR = F.parse_schema(last_reader)
+    head_len = len(refavro.zz(SENTINEL))
+    seekable = ch.chance(60)
+    mk = (lambda data, cut=None: io.BytesIO(data if cut is None else data[:cut])) if seekable else \
+         (lambda data, cut=None: ReadOnlySeq(data, cut=cut))
+    ctx.probe("skip_last_seekable" if seekable else "skip_last_sequential")
+    try:
+        v = F.schemaless_reader(mk(lenc), PLS, PLR)
+    except Exception as e:  # noqa
+        raise Violation("fault-free", "skip-valid-encoding-rejected", detail={"exc": jsonable(e), "form": "skipped-last", "seekable": seekable}, scenario=desc)
+    n_eval += 1
+    if v != {"head": SENTINEL}:
+        raise Violation("fault-free", "skip-consumed-wrong-bytes", detail={"got": jsonable(v), "form": "skipped-last"}, scenario=desc)
+    for k in _cuts(ch, len(lenc), ctx.tier):
+        try:
+            v = F.schemaless_reader(mk(lenc, k), PLS, PLR)
+        except Exception as e:  # noqa
+            n_eval += 1
+            ctx.fault("cut_skip_last")
+            continue
+        raise Violation("cut", "prefix-decoded", detail={"mode": "skip-last", "seekable": seekable, "cut": k, "len": len(lenc),
+                                                           "returned": jsonable(v)}, scenario=desc)
 
     # ---- bad_index at every site ---------------------------------------------------------------
     for mode, data, st, sch, rs in (("read", enc, sites, PS, None), ("skip", wenc, wsites, PWS, PRS)):
